@@ -234,7 +234,9 @@ func dialcOnce(a []string) string {
 		bg := a[0] == "1"
 		timeout := parseU(a[1])
 		hsF := strings.Split(a[4], "+")
-		dialDur, hsDur := parseU(a[3]), parseU(hsF[0])
+		// "<u>i": a NetDial of the user's that ignores its context and hands the conn over after u units regardless
+		ignores := strings.HasSuffix(a[3], "i")
+		dialDur, hsDur := parseU(strings.TrimSuffix(a[3], "i")), parseU(hsF[0])
 		conn := newDeadConn(hsDur, a[5] == "1")
 		if len(hsF) > 1 {
 			conn.hs2 = parseU(hsF[1])
@@ -243,6 +245,11 @@ func dialcOnce(a []string) string {
 		d := ws.Dialer{
 			Timeout: timeout,
 			NetDial: func(ctx context.Context, network, addr string) (net.Conn, error) {
+				if ignores {
+					time.Sleep(dialDur)
+					connected = true
+					return conn, nil
+				}
 				if dialDur < 0 {
 					<-ctx.Done()
 					return nil, ctx.Err()
@@ -316,7 +323,11 @@ func dialcOnce(a []string) string {
 		}
 		elapsed := time.Since(start)
 		late := 0
-		if limit >= 0 && elapsed > limit+3*unit/2 {
+		by := limit
+		if ignores && dialDur > by {
+			by = dialDur // Dial cannot return before the NetDial it was given does
+		}
+		if limit >= 0 && elapsed > by+3*unit/2 {
 			late = 1
 		}
 		conn.mu.Lock()
@@ -402,6 +413,14 @@ func genC20(tier string, r *rng) {
 		{"0", "0", "cancel:2", "0", "1+3", "0"}, {"0", "0", "deadline:2", "0", "1+3", "0"}, {"0", "2", "none", "0", "1+3", "0"},
 		{"1", "2", "none", "0", "1+3", "0"}, {"0", "7", "cancel:3", "1", "1+3", "0"}, {"0", "3", "cancel:6", "0", "1+4", "0"},
 		{"0", "7", "none", "0", "1+3", "0"}, {"1", "0", "none", "0", "1+2", "0"}, {"0", "0", "cancel:6", "0", "1+2", "0"},
+	} {
+		run(fmt.Sprintf("dialc %s %s %s %s %s %s", k.bg, k.timeout, k.ctx, k.dial, k.hs, k.fail))
+	}
+	// a NetDial that ignores its context and delivers a conn after the limit has passed: the conn is closed all the
+	// same (silent peer, slow peer; context cancel / deadline / Timeout; background fast path)
+	for _, k := range []c{
+		{"0", "0", "cancel:1", "3i", "never", "0"}, {"0", "0", "deadline:2", "4i", "2", "0"}, {"0", "2", "none", "4i", "never", "0"},
+		{"1", "2", "none", "4i", "2", "0"}, {"1", "2", "none", "3i", "never", "0"}, {"0", "5", "cancel:2", "4i", "2", "0"}, {"0", "2", "cancel:6", "4i", "3", "0"},
 	} {
 		run(fmt.Sprintf("dialc %s %s %s %s %s %s", k.bg, k.timeout, k.ctx, k.dial, k.hs, k.fail))
 	}
